@@ -11,18 +11,25 @@ import ZvbiModel.Generated.TtxLayout
   bytes of exactly those positions which the C code reads with that accessor; everything else is
   masked.  `decodeTeletext s p = finish (process s pmag k (view k p))`.
 * `Link`, `Triplet`, `Ext`, `Page` (= `cache_page`, LOP variant of the union + header fields),
-  `RawPage` (= `struct raw_page`), `PageStat`, `Magazine`, `St` (decoder + network + cache state)
-* `Event` (`ttxPage`, `put`, `touch`, `chsw`, `fault`), `Res` (state, events, return value)
+  `RawPage` (= `struct raw_page`), `PageStat`, `Magazine`, `Net` (= `cache_network` Teletext part
+  + the cached pages of that network), `St` (decoder state: `raw : List RawPage` page assembly per
+  magazine, `current`, `header`, `chswcd`, `mask`, `net : Net`)
+* `Aux` (`touch`, `fault`: all a table parser can emit), `Event` (`ttxPage`, `put`, `chsw`, `aux`),
+  `Res` (state, events, return value)
 * `init`, `St.enable` (handler registration), `frameTick` (the per-frame part of `vbi_decode`),
   `gap` (frame dropped), `decodeTeletext` (= `vbi_decode_teletext`), `step` (= one Teletext line
-  through `vbi_decode`), `desync`, `chswReset`
-* cache abstraction: `St.cache : List Page` in hash-chain (most recently used first) order,
-  `cacheFind`, `cacheGet`, `cachePut`, `putKey`; every store is also emitted as `Event.put page`
-  and every lookup as `Event.touch`, so the list can later be replaced by the C10 cache model
-  (`ZvbiModel.Cache`) by replaying these events.
+  through `vbi_decode`), `run` (a history), `desync`, `chswReset`
+* cache abstraction: `Net.cache : List Page` in hash-chain (most recently used first) order,
+  `cacheFind`, `cacheGet`, `cachePut`, `putKey`, `Net.get`, `Net.put`; `St.put` is the only place
+  where a page is stored and emits `Event.put page`, every look-up emits `Aux.touch`, so the list
+  can later be replaced by the C10 cache model (`ZvbiModel.Cache`) by replaying these events.
+* `Zvbi.Gen.ttx*` (Generated/TtxLayout.lean): array extents and the flags `ttxFixF21..F25` saying
+  which proposed repairs the current packet.c contains (the model follows them).
 * `lopParityCheck`, `storeLop`, `sameHeader`, `sameClock`, `pageLanguage`, `unhamPageLink`,
   `parseMot`, `parsePop`, `parseBtt`, `parseMip`, `parseMpt`, `parseMptEx`, `parseAitBounds`,
-  `parse27`, `parse2829`, `parse830`, `getBits`
+  `convertDrcsBounds`, `convertPage`, `terminatedSlot`, `terminatePage`, `hdrRejected`,
+  `processHeader`, `processRow`, `x26Triplets`, `process26`, `parse27`, `parse2829`, `parse830`,
+  `getBits`, `process`, `finish`, `hdr8`, `patchHdr8`
 * `fmtRaw` - the character code the Level 1 formatter (`vbi_format_vt_page`) feeds into its
   attribute machine for one cell (parity failure -> 0x20)
 
@@ -305,18 +312,36 @@ def Magazine.init (region : Nat) : Magazine :=
   ⟨Ext.init region, List.replicate 256 (-1), List.replicate 256 (-1), List.replicate 16 PopLink.ff,
    List.replicate 16 (-1)⟩
 
+/-- what the table parsers can emit: they never store pages -/
+inductive Aux
+  /-- `_vbi_cache_get_page (pgno, subno, mask)` -/
+  | touch (pgno subno mask : Nat)
+  /-- an index left its array / an `assert` would fail (site name) -/
+  | fault (site : String)
+deriving DecidableEq, Repr, Inhabited
+
 inductive Event
   /-- VBI_EVENT_TTX_PAGE; `clock` is only defined when `roll` was computed (else uninitialised in C) -/
   | ttxPage (pgno subno : Nat) (roll hdrUpd : Bool) (clock : Option Bool) (pnOffset : Int)
       (rawHeader : Option (List Nat))
   /-- `_vbi_cache_put_page` was called with this page (stored unless pgno & 0xFF = 0xFF) -/
   | put (p : Page)
-  /-- `_vbi_cache_get_page (pgno, subno, mask)` -/
-  | touch (pgno subno mask : Nat)
   /-- `vbi_chsw_reset` -/
   | chsw
-  /-- an index left its array / an `assert` would fail (site name) -/
-  | fault (site : String)
+  | aux (a : Aux)
+deriving DecidableEq, Repr, Inhabited
+
+def liftAux (l : List Aux) : List Event := l.map Event.aux
+
+/-- `cache_network` (Teletext part) plus the cached pages of that network.  The table parsers
+    (MOT, MIP, BTT, MPT ...) work on this record only, so they cannot touch page assembly state. -/
+structure Net where
+  stat : List PageStat        -- cn->_pages[0x800]
+  mags : List Magazine        -- cn->_magazines[8]
+  initialPage : Link
+  bttLink : List Link         -- cn->btt_link[]
+  haveTop : Bool
+  cache : List Page           -- pages of the current network, hash chain order (MRU first)
 deriving DecidableEq, Repr, Inhabited
 
 structure St where
@@ -329,12 +354,7 @@ structure St where
   header : List Nat           -- vt.header[40]
   raw : List RawPage          -- vt.raw_page[8]
   current : Option Nat        -- vt.current as magazine index
-  stat : List PageStat        -- cn->_pages[0x800]
-  mags : List Magazine        -- cn->_magazines[8]
-  initialPage : Link
-  bttLink : List Link         -- cn->btt_link[10]
-  haveTop : Bool
-  cache : List Page           -- pages of the current network, hash chain order (MRU first)
+  net : Net                   -- vbi->cn and the pages of vbi->ca belonging to it
 deriving DecidableEq, Repr, Inhabited
 
 /-- result of a decoding step -/
@@ -352,19 +372,20 @@ def desync (s : St) : St :=
 
 /-- `vbi_teletext_channel_switched` -/
 def channelSwitched (s : St) : St :=
-  desync { s with
-    initialPage := { s.initialPage with pgno := 0x100, subno := ANY_SUBNO }
+  desync { s with net := { s.net with
+    initialPage := { s.net.initialPage with pgno := 0x100, subno := ANY_SUBNO }
     haveTop := false
     stat := List.replicate 0x800 PageStat.init
-    mags := List.replicate 8 (Magazine.init REGION) }
+    mags := List.replicate 8 (Magazine.init REGION) } }
 
 /-- `vbi_decoder_new` (calloc + `vbi_teletext_init`) -/
 def init : St :=
   channelSwitched
     { mask := false, started := false, chswcd := 0, hdrPgno := 0, header := zeroRow,
       raw := List.replicate 8 ⟨Page.zero, List.replicate 26 zeroRow, 0, 0⟩,
-      current := none, stat := [], mags := [], initialPage := Link.zero,
-      bttLink := List.replicate BTT_LINKS Link.zero, haveTop := false, cache := [] }
+      current := none,
+      net := { stat := [], mags := [], initialPage := Link.zero,
+               bttLink := List.replicate BTT_LINKS Link.zero, haveTop := false, cache := [] } }
 
 /-- `vbi_event_handler_register (.., VBI_EVENT_TTX_PAGE, ..)` / unregister -/
 def St.enable (s : St) (on : Bool) : St :=
@@ -373,7 +394,8 @@ def St.enable (s : St) (on : Bool) : St :=
 /-- `vbi_chsw_reset (vbi, 0)`: the network record is recycled (n_networks_limit = 1): all its
     pages are deleted, `btt_link` survives (the record is not cleared in libzvbi 0.2) -/
 def chswReset (s : St) : St :=
-  { channelSwitched s with cache := [], hdrPgno := 0, chswcd := 0 }
+  let s := channelSwitched s
+  { s with net := { s.net with cache := [] }, hdrPgno := 0, chswcd := 0 }
 
 /-! ## cache abstraction (cache.c `page_by_pgno`, `_vbi_cache_get_page`, `_vbi_cache_put_page`) -/
 def isBcd (n : Nat) : Bool :=
@@ -427,29 +449,33 @@ def cachePut (c : List Page) (pageType : Nat) (p : Page) : Option (List Page) :=
 def statIdx (pgno : Nat) : Option Nat :=
   if pgno ≥ 0x100 && pgno ≤ 0x8FF then some (pgno - 0x100) else none
 
-def St.getStat (s : St) (pgno : Nat) : PageStat :=
+def Net.getStat (s : Net) (pgno : Nat) : PageStat :=
   match statIdx pgno with
   | some i => s.stat.getD i PageStat.init
   | none => PageStat.init
 
 /-- write through `cache_network_page_stat` (an `assert` guards the range) -/
-def St.setStat (s : St) (pgno : Nat) (f : PageStat → PageStat) : St × List Event :=
+def Net.setStat (s : Net) (pgno : Nat) (f : PageStat → PageStat) : Net × List Aux :=
   match statIdx pgno with
   | some i => ({ s with stat := s.stat.set i (f (s.stat.getD i PageStat.init)) }, [])
-  | none => (s, [Event.fault "assert:cache_network_page_stat"])
+  | none => (s, [Aux.fault "assert:cache_network_page_stat"])
 
-def St.put (s : St) (p : Page) : St × List Event :=
+/-- `_vbi_cache_put_page` -/
+def Net.put (s : Net) (p : Page) : Net :=
   match cachePut s.cache (s.getStat p.pgno).pageType p with
-  | some c => ({ s with cache := c }, [Event.put p])
-  | none => (s, [Event.put p])
+  | some c => { s with cache := c }
+  | none => s
 
-def St.get (s : St) (pgno subno mask : Nat) : Option Page × St × List Event :=
+def Net.get (s : Net) (pgno subno mask : Nat) : Option Page × Net × List Aux :=
   match cacheGet s.cache pgno subno mask with
-  | some (q, c) => (some q, { s with cache := c }, [Event.touch pgno subno mask])
-  | none => (none, s, [Event.touch pgno subno mask])
+  | some (q, c) => (some q, { s with cache := c }, [Aux.touch pgno subno mask])
+  | none => (none, s, [Aux.touch pgno subno mask])
 
-def St.mag (s : St) (mag8 : Nat) : Magazine := s.mags.getD (mag8 - 1) (Magazine.init REGION)
-def St.setMag (s : St) (mag8 : Nat) (m : Magazine) : St := { s with mags := s.mags.set (mag8 - 1) m }
+def Net.mag (s : Net) (mag8 : Nat) : Magazine := s.mags.getD (mag8 - 1) (Magazine.init REGION)
+def Net.setMag (s : Net) (mag8 : Nat) (m : Magazine) : Net := { s with mags := s.mags.set (mag8 - 1) m }
+
+/-- the only place where a page enters the cache -/
+def St.put (s : St) (p : Page) : St × List Event := ({ s with net := s.net.put p }, [Event.put p])
 def St.rp (s : St) (mag0 : Nat) : RawPage := s.raw.getD mag0 default
 def St.setRp (s : St) (mag0 : Nat) (r : RawPage) : St := { s with raw := s.raw.set mag0 r }
 def St.setPage (s : St) (mag0 : Nat) (p : Page) : St := s.setRp mag0 { s.rp mag0 with page := p }
@@ -457,7 +483,7 @@ def St.setPage (s : St) (mag0 : Nat) (p : Page) : St := s.setRp mag0 { s.rp mag0
 /-! ## store_lop and friends -/
 
 /-- `page_language` with `max_level = VBI_WST_LEVEL_2p5` (network magazine); -1 = none -/
-def pageLanguage (s : St) (vtp : Option Page) (pgno national : Nat) : Int :=
+def pageLanguage (s : Net) (vtp : Option Page) (pgno national : Nat) : Int :=
   match vtp with
   | some q =>
     if q.function != FN_LOP then -1 else
@@ -505,8 +531,9 @@ def sameHeader (curPgno : Nat) (cur ref : List Nat) : Int × Nat :=
     offset 0, so it compares `raw[0][0..7]` with `header[0..7]` -/
 def sameClock (cur ref : List Nat) : Bool :=
   (List.range 8).all fun i =>
-    let c := cur.getD i 0
-    let r := ref.getD i 0
+    let k := if ttxFixF24 then 32 + i else i      -- finding F24
+    let c := cur.getD k 0
+    let r := ref.getD k 0
     !(c != r && (oddPar c && oddPar r))
 
 /-- `lop_parity_check (cvtp, rvtp)` -/
@@ -579,20 +606,21 @@ def storeLop (s : St) (vtp : Page) : St × List Event :=
   | some none => (s, [])
   | some (some (s, roll, hdrUpd, clock, pn, rawHdr)) =>
       -- page statistics
-      let ps := s.getStat vtp.pgno
+      let ps := s.net.getStat vtp.pgno
       let ps :=
         if ps.pageType == PT_SUBTITLE then
-          if ps.charset == 0xFF then { ps with charset := intToU8 (pageLanguage s (some vtp) 0 0) } else ps
+          if ps.charset == 0xFF then { ps with charset := intToU8 (pageLanguage s.net (some vtp) 0 0) } else ps
         else if ps.pageType == PT_NO_PAGE || ps.pageType == PT_UNKNOWN then { ps with pageType := PT_NORMAL }
         else ps
       let ps := if ps.subcode ≥ 0xFFFE || vtp.subno > ps.subcode then { ps with subcode := vtp.subno % 65536 } else ps
-      let (s, e1) := s.setStat vtp.pgno (fun _ => ps)
+      let (n, e1) := s.net.setStat vtp.pgno (fun _ => ps)
+      let s := { s with net := n }
       let (s', e2) := s.put vtp
       let stored := vtp.pgno &&& 0xFF != 0xFF
       let ev := if stored && s.mask then
           [Event.ttxPage vtp.pgno vtp.subno roll hdrUpd clock pn (if rawHdr then some s.header else none)]
         else []
-      (s', e1 ++ e2 ++ ev)
+      (s', liftAux e1 ++ e2 ++ ev)
 
 /-! ## link and table parsers -/
 
@@ -605,13 +633,13 @@ def unhamPageLink (v : View) (i : Nat) (magazine : Nat) : Option (Nat × Nat) :=
     some ((if x == 0 then 8 else x) * 256 + b1, (b3 * 256 + b2) &&& 0x3F7F)
   | _, _, _ => none
 
-def setLut (l : List Int) (idx : Nat) (val : Int) (site : String) : List Int × List Event :=
-  if idx < l.length then (l.set idx val, []) else (l, [Event.fault site])
+def setLut (l : List Int) (idx : Nat) (val : Int) (site : String) : List Int × List Aux :=
+  if idx < l.length then (l.set idx val, []) else (l, [Aux.fault site])
 
 /-- `parse_mot (mag, raw, packet)`; always TRUE -/
-def parseMot (m : Magazine) (v : View) (packet : Nat) : Magazine × List Event :=
+def parseMot (m : Magazine) (v : View) (packet : Nat) : Magazine × List Aux :=
   if 1 ≤ packet && packet ≤ 8 then
-    (List.range 20).foldl (fun (acc : Magazine × List Event) i =>
+    (List.range 20).foldl (fun (acc : Magazine × List Aux) i =>
       let (m, ev) := acc
       let index := ((packet - 1) <<< 5) + i + (if i ≥ 10 then 6 else 0)
       match v.g8 (2 * i), v.g8 (2 * i + 1) with
@@ -621,7 +649,7 @@ def parseMot (m : Magazine) (v : View) (packet : Nat) : Magazine × List Event :
         ({ m with popLut := pl, drcsLut := dl }, ev ++ e1 ++ e2)
       | _, _ => (m, ev)) (m, [])
   else if 9 ≤ packet && packet ≤ 14 then
-    let (m, ev, _, _) := (List.range 20).foldl (fun (acc : Magazine × List Event × Nat × Bool) i =>
+    let (m, ev, _, _) := (List.range 20).foldl (fun (acc : Magazine × List Aux × Nat × Bool) i =>
       let (m, ev, index, stop) := acc
       if stop then acc else
       let (index, stop) :=
@@ -637,7 +665,7 @@ def parseMot (m : Magazine) (v : View) (packet : Nat) : Magazine × List Event :
     (m, ev)
   else if packet == 19 || packet == 20 || packet == 22 || packet == 23 then
     let pk := if packet ≥ 22 then packet - 1 else packet
-    (List.range 4).foldl (fun (acc : Magazine × List Event) i =>
+    (List.range 4).foldl (fun (acc : Magazine × List Aux) i =>
       let (m, ev) := acc
       let n := (List.range 10).map fun j => v.g8 (10 * i + j)
       if n.any Option.isNone then (m, ev) else
@@ -657,9 +685,9 @@ def parseMot (m : Magazine) (v : View) (packet : Nat) : Magazine × List Event :
           type1 := (g 5 >>> 2 : Nat)
           addr1 := ((g 9 <<< 4) + g 8 : Nat) }
       if idx < m.popLink.length then ({ m with popLink := m.popLink.set idx pl }, ev)
-      else (m, ev ++ [Event.fault "mot:pop_link"])) (m, [])
+      else (m, ev ++ [Aux.fault "mot:pop_link"])) (m, [])
   else if packet == 21 || packet == 24 then
-    (List.range 8).foldl (fun (acc : Magazine × List Event) i =>
+    (List.range 8).foldl (fun (acc : Magazine × List Aux) i =>
       let (m, ev) := acc
       let n := (List.range 4).map fun j => v.g8 (4 * i + j)
       if n.any Option.isNone then (m, ev) else
@@ -672,26 +700,26 @@ def parseMot (m : Magazine) (v : View) (packet : Nat) : Magazine × List Event :
 
 /-- `parse_pop (vtp, raw, packet)`: return value and bounds of the indices written
     (contents of `data.pop` are not modelled) -/
-def parsePop (v : View) (packet : Nat) : Bool × List Event :=
+def parsePop (v : View) (packet : Nat) : Bool × List Aux :=
   match v.g8 0 with
   | none => (false, [])
   | some designation =>
     let packet := if packet == 26 then packet + designation else packet
-    let pointers : Bool × List Event :=
-      let index0 := (packet - 1) * 26
+    let pointers : Bool × List Aux :=
+      let index0 := (packet - 1) * (if ttxFixF23 then 24 else 26)   -- finding F23
       let ev := (List.range 12).foldl (fun ev k =>
         let i := k + 1
         match v.g24 i with
         | some _ => if index0 + 2 * i + 1 < POP_POINTER_SIZE then ev else
-            if ev.isEmpty then [Event.fault "pop:pointer"] else ev
+            if ev.isEmpty then [Aux.fault "pop:pointer"] else ev
         | none => ev) []
       (true, ev)
-    let triplets : Bool × List Event :=
+    let triplets : Bool × List Aux :=
       let base := (packet - 3) * 13
       let ev := (List.range 13).foldl (fun ev i =>
         match v.g24 i with
         | some _ => if base + i < POP_TRIPLET_SIZE then ev else
-            if ev.isEmpty then [Event.fault "pop:triplet"] else ev
+            if ev.isEmpty then [Aux.fault "pop:triplet"] else ev
         | none => ev) []
       (true, ev)
     if 1 ≤ packet && packet ≤ 2 then
@@ -704,7 +732,7 @@ def parsePop (v : View) (packet : Nat) : Bool × List Event :=
 /-- `convert_drcs`: bounds of the write pointer `d` into `drcs.chars` and of the read pointer `p`
     into `drcs.lop.raw[1..24]` (contents not modelled).  DRCS_MODE_6_5_4 advances `d` by 120 and `p`
     by 80 for a single PTU, so a page with enough mode-3 PTUs runs both pointers off their arrays. -/
-def convertDrcsBounds (modes : List Nat) : List Event :=
+def convertDrcsBounds (modes : List Nat) : List Aux :=
   let rec go (fuel i d p : Nat) (bad : Bool) : Bool :=
     match fuel with
     | 0 => bad
@@ -714,14 +742,16 @@ def convertDrcsBounds (modes : List Nat) : List Event :=
       if m == 0 then go fuel (i + 1) (d + 60) (p + 20) (bad || d + 60 > DRCS_CHARS_BYTES || p + 20 > 24 * 40)
       else if m == 1 then go fuel (i + 2) (d + 120) (p + 40) (bad || d + 120 > DRCS_CHARS_BYTES || p + 40 > 24 * 40)
       else if m == 2 then go fuel (i + 4) (d + 240) (p + 80) (bad || d + 240 > DRCS_CHARS_BYTES || p + 80 > 24 * 40)
-      else if m == 3 then go fuel (i + 1) (d + 120) (p + 80) (bad || d + 120 > DRCS_CHARS_BYTES || p + 80 > 24 * 40)
+      else if m == 3 then
+        if ttxFixF22 then go fuel (i + 1) (d + 60) (p + 20) (bad || d + 60 > DRCS_CHARS_BYTES || p + 20 > 24 * 40)
+        else go fuel (i + 1) (d + 120) (p + 80) (bad || d + 120 > DRCS_CHARS_BYTES || p + 80 > 24 * 40)  -- finding F22
       else go fuel (i + 1) (d + 60) (p + 20) bad
-  if go DRCS_PTUS 0 0 0 false then [Event.fault "drcs:chars"] else []
+  if go DRCS_PTUS 0 0 0 false then [Aux.fault "drcs:chars"] else []
 
 /-- `parse_ait`: only index bounds (`title[(packet - 1) * 2 + 0..1]`) -/
-def parseAitBounds (packet : Nat) : List Event :=
+def parseAitBounds (packet : Nat) : List Aux :=
   if packet < 1 || packet > 23 then []
-  else if (packet - 1) * 2 + 1 < AIT_TITLES then [] else [Event.fault "ait:title"]
+  else if (packet - 1) * 2 + 1 < AIT_TITLES then [] else [Aux.fault "ait:title"]
 
 def dec2bcdp : List Nat :=
   [0x000, 0x040, 0x080, 0x120, 0x160, 0x200, 0x240, 0x280, 0x320, 0x360,
@@ -739,17 +769,17 @@ def unhamTopPageLink (v : View) (i : Nat) : Option Link :=
   some ⟨fn, pgno, (subno &&& 0x3F7F : Nat)⟩
 
 /-- `parse_btt (vbi, raw, packet)`; always TRUE -/
-def parseBtt (s : St) (v : View) (packet : Nat) : St × List Event :=
+def parseBtt (s : Net) (v : View) (packet : Nat) : Net × List Aux :=
   if 1 ≤ packet && packet ≤ 20 then
     -- outer i < 4, inner j < 10 with early `break` on a Hamming error
-    let (s, ev, _, _) := (List.range 4).foldl (fun (acc : St × List Event × Nat × Nat) _ =>
+    let (s, ev, _, _) := (List.range 4).foldl (fun (acc : Net × List Aux × Nat × Nat) _ =>
       let (s, ev, index, rawPos) := acc
       let (s, ev, index, rawPos, _) := (List.range 10).foldl
-        (fun (acc : St × List Event × Nat × Nat × Bool) _ =>
+        (fun (acc : Net × List Aux × Nat × Nat × Bool) _ =>
           let (s, ev, index, rawPos, brk) := acc
           if brk then acc else
           let pgno := 0x100 + index
-          let chk := if (statIdx pgno).isNone then [Event.fault "assert:cache_network_page_stat"] else []
+          let chk := if (statIdx pgno).isNone then [Aux.fault "assert:cache_network_page_stat"] else []
           match v.g8 rawPos with
           | none => (s, ev ++ chk, index, rawPos + 1, true)
           | some code =>
@@ -784,7 +814,7 @@ def parseBtt (s : St) (v : View) (packet : Nat) : St × List Event :=
     (s, ev)
   else if 21 ≤ packet && packet ≤ 23 then
     let s := { s with haveTop := true }
-    (List.range 5).foldl (fun (acc : St × List Event) i =>
+    (List.range 5).foldl (fun (acc : Net × List Aux) i =>
       let (s, ev) := acc
       match unhamTopPageLink v (8 * i) with
       | none => (s, ev)
@@ -799,15 +829,15 @@ def parseBtt (s : St) (v : View) (packet : Nat) : St × List Event :=
         else
           -- btt_link[2 * 5] but packet 23 addresses entries 10..14: the C code writes behind the
           -- array (into have_top and _magazines[0].extension); not modelled further
-          (s, ev ++ [Event.fault "btt:btt_link"])) (s, [])
+          (s, ev ++ [Aux.fault "btt:btt_link"])) (s, [])
   else (s, [])
 
 /-- `parse_mpt`; always TRUE -/
-def parseMpt (s : St) (g : Nat → Option Nat) (packet : Nat) : St × List Event :=
+def parseMpt (s : Net) (g : Nat → Option Nat) (packet : Nat) : Net × List Aux :=
   if 1 ≤ packet && packet ≤ 20 then
-    let (s, ev, _) := (List.range 4).foldl (fun (acc : St × List Event × Nat) i =>
+    let (s, ev, _) := (List.range 4).foldl (fun (acc : Net × List Aux × Nat) i =>
       let (s, ev, index) := acc
-      let (s, ev) := (List.range 10).foldl (fun (acc : St × List Event) j =>
+      let (s, ev) := (List.range 10).foldl (fun (acc : Net × List Aux) j =>
         let (s, ev) := acc
         match g (10 * i + j) with
         | none => (s, ev)
@@ -819,7 +849,7 @@ def parseMpt (s : St) (g : Nat → Option Nat) (packet : Nat) : St × List Event
             let (s, e) := s.setStat pgno (fun ps => { ps with subcode := n })
             (s, ev ++ e)
           else
-            (s, ev ++ (if (statIdx pgno).isNone then [Event.fault "assert:cache_network_page_stat"] else [])))
+            (s, ev ++ (if (statIdx pgno).isNone then [Aux.fault "assert:cache_network_page_stat"] else [])))
         (s, ev)
       let index := index + 10
       (s, ev, index + (if index &&& 0xFF == 0x9A then 0x66 else 0x06))) (s, [], dec2bcdp.getD (packet - 1) 0)
@@ -827,9 +857,9 @@ def parseMpt (s : St) (g : Nat → Option Nat) (packet : Nat) : St × List Event
   else (s, [])
 
 /-- `parse_mpt_ex`; always TRUE -/
-def parseMptEx (s : St) (lk : Nat → Option Link) (packet : Nat) : St × List Event :=
+def parseMptEx (s : Net) (lk : Nat → Option Link) (packet : Nat) : Net × List Aux :=
   if 1 ≤ packet && packet ≤ 23 then
-    let (s, ev, _) := (List.range 5).foldl (fun (acc : St × List Event × Bool) i =>
+    let (s, ev, _) := (List.range 5).foldl (fun (acc : Net × List Aux × Bool) i =>
       let (s, ev, brk) := acc
       if brk then acc else
       match lk (8 * i) with
@@ -851,16 +881,16 @@ def parseMptEx (s : St) (lk : Nat → Option Link) (packet : Nat) : St × List E
 def rowView (k : Kind) (row : List Nat) : View := view k ([0, 0] ++ row)
 
 /-- `parse_mip_page`; returns FALSE on error -/
-def parseMipPage (s : St) (vtp : Page) (pgno : Nat) (code : Option Nat) (spi : Nat) :
-    St × List Event × Nat × Bool :=
+def parseMipPage (s : Net) (vtp : Page) (pgno : Nat) (code : Option Nat) (spi : Nat) :
+    Net × List Aux × Nat × Bool :=
   match code with
   | none => (s, [], spi, false)
   | some code =>
     if (0x52 ≤ code && code ≤ 0x6F) || (0xD2 ≤ code && code ≤ 0xDF) || (0xFA ≤ code && code ≤ 0xFC) || code == 0xFF then
-      (s, if (statIdx pgno).isNone then [Event.fault "assert:cache_network_page_stat"] else [], spi, true)
+      (s, if (statIdx pgno).isNone then [Aux.fault "assert:cache_network_page_stat"] else [], spi, true)
     else
       -- (state, events, spi, code, subc) or failure
-      let r : Option (St × List Event × Nat × Nat × Nat) :=
+      let r : Option (Net × List Aux × Nat × Nat × Nat) :=
         if (0x02 ≤ code && code ≤ 0x4F) || (0x82 ≤ code && code ≤ 0xCF) then
           some (s, [], spi, if code ≥ 0x80 then PT_PROGR_SCHEDULE else PT_NORMAL, code &&& 0x7F)
         else if 0x70 ≤ code && code ≤ 0x77 then
@@ -892,7 +922,7 @@ def parseMipPage (s : St) (vtp : Page) (pgno : Nat) (code : Option Nat) (spi : N
           | _, _ => none
         else some (s, [], spi, code, 0)
       match r with
-      | none => (s, if (statIdx pgno).isNone then [Event.fault "assert:cache_network_page_stat"] else [], spi, false)
+      | none => (s, if (statIdx pgno).isNone then [Aux.fault "assert:cache_network_page_stat"] else [], spi, false)
       | some (s, ev, spi, code, subc) =>
         let old := s.getStat pgno
         let (s, e) := s.setStat pgno (fun ps =>
@@ -902,7 +932,7 @@ def parseMipPage (s : St) (vtp : Page) (pgno : Nat) (code : Option Nat) (spi : N
         (s, ev ++ e, spi, true)
 
 /-- `parse_mip (vbi, vtp)` -/
-def parseMip (s : St) (vtp : Page) : St × List Event :=
+def parseMip (s : Net) (vtp : Page) : Net × List Aux :=
   let base := vtp.pgno &&& 0xF00
   -- list of (packet, column of the byte pair, pgno) in program order
   let items1 : List (Nat × Nat × Nat) := (List.range 8).flatMap fun k =>
@@ -917,7 +947,7 @@ def parseMip (s : St) (vtp : Page) : St × List Event :=
     (if packet == 14 then [] else
       ((List.range 6).map fun i => (packet, 12 + 2 * i, pg + 0x1A + i)) ++
       ((List.range 6).map fun i => (packet, 24 + 2 * i, pg + 0x2A + i)))
-  let (s, ev, _, _) := (items1 ++ items2).foldl (fun (acc : St × List Event × Nat × Bool) it =>
+  let (s, ev, _, _) := (items1 ++ items2).foldl (fun (acc : Net × List Aux × Nat × Bool) it =>
     let (s, ev, spi, failed) := acc
     if failed then acc else
     let (packet, col, pgno) := it
@@ -1035,7 +1065,7 @@ def ext04 (ext : Ext) (designation : Nat) (bs : BitStream) : Ext × BitStream :=
 def rev5 (x : Nat) : Nat := rev8 x >>> 3
 
 /-- `parse_28_29 (vbi, p, cvtp, mag8, packet)` -/
-def parse2829 (s : St) (mag0 mag8 packet : Nat) (v : View) : St × List Event × Bool :=
+def parse2829 (s : St) (mag0 mag8 packet : Nat) (v : View) : St × List Aux × Bool :=
   let cv := (s.rp mag0).page
   match v.g8 0 with
   | none => (s, [], false)
@@ -1044,7 +1074,7 @@ def parse2829 (s : St) (mag0 mag8 packet : Nat) (v : View) : St × List Event ×
     let bs : BitStream := ⟨v.u24, 0, 0, false⟩
     -- select `ext`: the page's copy for X/28 (initialised from the magazine on first use), else the magazine's
     let selectExt (cv : Page) : Ext × Page :=
-      let mext := (s.mag mag8).ext
+      let mext := (s.net.mag mag8).ext
       if packet == 28 then
         let cv := if cv.ext.designations == 0 then { cv with ext := mext } else cv
         let cv := { cv with x28 := cv.x28 ||| (1 <<< designation) }
@@ -1052,8 +1082,8 @@ def parse2829 (s : St) (mag0 mag8 packet : Nat) (v : View) : St × List Event ×
       else (mext, cv)
     let storeExt (cv : Page) (ext : Ext) : St :=
       if packet == 28 then s.setPage mag0 { cv with ext := ext }
-      else s.setMag mag8 { s.mag mag8 with ext := ext }
-    let ur (bs : BitStream) : List Event := if bs.underrun then [Event.fault "x28:triplets"] else []
+      else { s with net := s.net.setMag mag8 { s.net.mag mag8 with ext := ext } }
+    let ur (bs : BitStream) : List Aux := if bs.underrun then [Aux.fault "x28:triplets"] else []
     if designation == 0 || designation == 4 then
       if err then (s, [], false) else
       let (function, bs) := getBits bs 4
@@ -1065,6 +1095,8 @@ def parse2829 (s : St) (mag0 mag8 packet : Nat) (v : View) : St × List Event ×
         let (ext, bs) := ext04 ext designation bs
         (storeExt cv ext, ur bs, false)
     else if designation == 1 then
+      -- unrepaired code uses the triplets without looking at `err` (finding F25)
+      if ttxFixF25 && err then (s, [], false) else
       let (ext, cv) := selectExt cv
       let bs := { bs with rest := bs.rest.drop 1 }
       let (a, bs) := getBitsN bs 5 8
@@ -1101,59 +1133,60 @@ def parse830 (s : St) (v : View) : St × Bool :=
       match unhamPageLink v 1 0 with
       | none => (s, false)
       | some (pgno, subno) =>
-        let ip : Link := if pgno &&& 0xFF == 0xFF then { s.initialPage with pgno := 0x100, subno := ANY_SUBNO }
-                         else { s.initialPage with pgno := pgno, subno := subno }
-        ({ s with initialPage := ip }, true)
+        let ip : Link := if pgno &&& 0xFF == 0xFF then { s.net.initialPage with pgno := 0x100, subno := ANY_SUBNO }
+                         else { s.net.initialPage with pgno := pgno, subno := subno }
+        ({ s with net := { s.net with initialPage := ip } }, true)
     else (s, true)
 
 /-! ## vbi_convert_page (cached = FALSE) -/
-def convertPage (s : St) (mag0 : Nat) (newFn : Int) : St × List Event :=
-  let vtp := (s.rp mag0).page
-  if vtp.function != FN_UNKNOWN then (s, [])
-  else if newFn == FN_LOP then (s.setPage mag0 { vtp with function := FN_LOP }, [])
+
+/-- new function of the page and new network record; `none` = conversion refused, page unchanged -/
+def convertPage (n : Net) (vtp : Page) (newFn : Int) : Option Page × Net × List Aux :=
+  if vtp.function != FN_UNKNOWN then (none, n, [])
+  else if newFn == FN_LOP then (some { vtp with function := FN_LOP }, n, [])
   else if newFn == FN_GPOP || newFn == FN_POP then
-    let (ok, ev) := (List.range 25).foldl (fun (acc : Bool × List Event) k =>
+    let (ok, ev) := (List.range 25).foldl (fun (acc : Bool × List Aux) k =>
       let (ok, ev) := acc
       if !ok then acc else
       let i := k + 1
       if vtp.lopPackets &&& (1 <<< i) == 0 then acc else
       let (r, e) := parsePop (rowView .trip (vtp.raw.getD i zeroRow)) i
       (r, ev ++ e)) (true, [])
-    if ok then (s.setPage mag0 { vtp with function := newFn }, ev) else (s, ev)
+    if ok then (some { vtp with function := newFn }, n, ev) else (none, n, ev)
   else if newFn == FN_GDRCS || newFn == FN_DRCS then
-    (s.setPage mag0 { vtp with function := newFn, drcsMode := List.replicate DRCS_PTUS 0 }, [])
+    (some { vtp with function := newFn, drcsMode := List.replicate DRCS_PTUS 0 }, n, [])
   else if newFn == FN_AIT then
     let ev := (List.range 23).foldl (fun ev k =>
       if vtp.lopPackets &&& (1 <<< (k + 1)) == 0 then ev else ev ++ parseAitBounds (k + 1)) []
-    (s.setPage mag0 { vtp with function := newFn }, ev)
+    (some { vtp with function := newFn }, n, ev)
   else if newFn == FN_MPT then
-    let (s, ev) := (List.range 20).foldl (fun (acc : St × List Event) k =>
-      let (s, ev) := acc
+    let (n, ev) := (List.range 20).foldl (fun (acc : Net × List Aux) k =>
+      let (n, ev) := acc
       let i := k + 1
       if vtp.lopPackets &&& (1 <<< i) == 0 then acc else
       let rv := rowView .rowH8 (vtp.raw.getD i zeroRow)
-      let (s, e) := parseMpt s rv.g8 i
-      (s, ev ++ e)) (s, [])
-    (s.setPage mag0 { (s.rp mag0).page with function := newFn }, ev)
+      let (n, e) := parseMpt n rv.g8 i
+      (n, ev ++ e)) (n, [])
+    (some { vtp with function := newFn }, n, ev)
   else if newFn == FN_MPT_EX then
-    let (s, ev) := (List.range 20).foldl (fun (acc : St × List Event) k =>
-      let (s, ev) := acc
+    let (n, ev) := (List.range 20).foldl (fun (acc : Net × List Aux) k =>
+      let (n, ev) := acc
       let i := k + 1
       if vtp.lopPackets &&& (1 <<< i) == 0 then acc else
       let rv := rowView .rowH8 (vtp.raw.getD i zeroRow)
-      let (s, e) := parseMptEx s (unhamTopPageLink rv) i
-      (s, ev ++ e)) (s, [])
-    (s.setPage mag0 { (s.rp mag0).page with function := newFn }, ev)
-  else (s, [])
+      let (n, e) := parseMptEx n (unhamTopPageLink rv) i
+      (n, ev ++ e)) (n, [])
+    (some { vtp with function := newFn }, n, ev)
+  else (none, n, [])
 
 /-- function implied by the page type of the page statistics (header branch, lines 2431-2516) -/
-def functionOfType (s : St) (pageType pgno page : Nat) : Int :=
+def functionOfType (n : Net) (pageType pgno page : Nat) : Int :=
   let t := pageType
   if (0x01 ≤ t && t ≤ 0x51) || (0x70 ≤ t && t ≤ 0x7F) || (0x81 ≤ t && t ≤ 0xD1) || (0xF4 ≤ t && t ≤ 0xF7)
      || t == PT_TOP_BLOCK || t == PT_TOP_GROUP then FN_LOP
   else if t == PT_SYSTEM then FN_UNKNOWN
   else if t == PT_TOP_PAGE then
-    match (s.bttLink.take 8).find? (fun l => l.pgno == (pgno : Int)) with
+    match (n.bttLink.take 8).find? (fun l => l.pgno == (pgno : Int)) with
     | some l => if l.function == FN_AIT || l.function == FN_MPT || l.function == FN_MPT_EX then l.function else FN_UNKNOWN
     | none => FN_UNKNOWN
   else if t == 0xE5 || (0xE8 ≤ t && t ≤ 0xEB) then FN_DRCS
@@ -1166,21 +1199,26 @@ def functionOfType (s : St) (pageType pgno page : Nat) : Int :=
 
 /-! ## the header (packet 0) -/
 
-/-- "Store page terminated by new header": the `while ((curr = vbi->vt.current))` block -/
-def terminatePage (s : St) (mag0 pgno page : Nat) : St × List Event :=
+/-- which assembly page a new header for (mag0, pgno) terminates: `none` = nothing to store -/
+def terminatedSlot (s : St) (mag0 pgno page : Nat) : Option Nat :=
   match s.current with
-  | none => (s, [])
+  | none => none
   | some cmag =>
     let vtp0 := (s.rp cmag).page
-    let (curr, vtp, skip) :=
-      if vtp0.flags &&& C11_MAGAZINE_SERIAL != 0 && vtp0.flags &&& C4_ERASE_PAGE == 0 then
-        (cmag, vtp0, vtp0.pgno == pgno)
-      else
-        let v := (s.rp mag0).page
-        (mag0, v, (v.pgno &&& 0xFF) == page && v.flags &&& C4_ERASE_PAGE == 0)
-    if skip then (s, []) else
+    if vtp0.flags &&& C11_MAGAZINE_SERIAL != 0 && vtp0.flags &&& C4_ERASE_PAGE == 0 then
+      if vtp0.pgno == pgno then none else some cmag
+    else
+      let v := (s.rp mag0).page
+      if (v.pgno &&& 0xFF) == page && v.flags &&& C4_ERASE_PAGE == 0 then none else some mag0
+
+/-- "Store page terminated by new header": the `while ((curr = vbi->vt.current))` block -/
+def terminatePage (s : St) (mag0 pgno page : Nat) : St × List Event :=
+  match terminatedSlot s mag0 pgno page with
+  | none => (s, [])
+  | some curr =>
+    let vtp := (s.rp curr).page
     let fn := vtp.function
-    let (s, ev) :=
+    let (s, ev) : St × List Event :=
       if fn == FN_DISCARD || fn == FN_EPG then (s, [])
       else if fn == FN_LOP then
         let (cv, rv) := lopParityCheck vtp (s.rp curr)
@@ -1188,12 +1226,19 @@ def terminatePage (s : St) (mag0 pgno page : Nat) : St × List Event :=
         storeLop s cv
       else if fn == FN_DRCS || fn == FN_GDRCS then
         let (s, e) := s.put vtp                                 -- convert_drcs always TRUE
-        (s, convertDrcsBounds vtp.drcsMode ++ e)
-      else if fn == FN_MIP then parseMip s vtp
+        (s, liftAux (convertDrcsBounds vtp.drcsMode) ++ e)
+      else if fn == FN_MIP then
+        let (n, e) := parseMip s.net vtp
+        ({ s with net := n }, liftAux e)
       else if fn == FN_EACEM then (s, [])                        -- no VBI_EVENT_TRIGGER handler
       else s.put vtp
     let cur := (s.rp curr).page
     (s.setPage curr { cur with function := FN_DISCARD }, ev)
+
+/-- the test `page == 0xFF || (subpage | flags) < 0` of the header branch (finding F21: the
+    unrepaired code looks at the sign of `S1S2 + S3S4 * 256` only) -/
+def hdrRejected (page : Nat) (sub12 sub34 fl : Int) : Bool :=
+  page == 0xFF || (if ttxFixF21 then sub12 < 0 || sub34 < 0 else sub12 + sub34 * 256 < 0) || fl < 0
 
 /-- packet 0 after the page number decoded.  Returns the result and whether the 40 header bytes
     were copied into `raw[0]` (then `raw[0][0..7]` are patched in by `finish`). -/
@@ -1208,57 +1253,60 @@ def processHeader (s : St) (mag0 mag8 : Nat) (v : View) : Res × Bool :=
     let sub12 := v.g16i 2
     let sub34 := v.g16i 4
     let fl := v.g16i 6
-    let subpage : Int := sub12 + sub34 * 256
-    if page == 0xFF || subpage < 0 || fl < 0 then
+    if hdrRejected page sub12 sub34 fl then
       (⟨s.setPage mag0 { cv with function := FN_DISCARD }, ev, false⟩, false)
     else
-      let subpage := subpage.toNat
+      let subpage := (sub12 + sub34 * 256).toNat
       let fl := fl.toNat
       let cv := { cv with subno := subpage &&& 0x3F7F, national := rev8 fl &&& 7, flags := (fl <<< 16) + subpage }
       let row0 := zeroRow.take 8 ++ (v.raw.drop 8)
-      let lookup : Option Page × St × List Event :=
-        if pgno != 0x1E7 && cv.flags &&& C4_ERASE_PAGE == 0 then s.get cv.pgno cv.subno 0xFFFFFFFF
-        else (none, s, [])
-      let (hit, s, e1) := lookup
-      let (cv, s, e2, copied) : Page × St × List Event × Bool :=
+      let lookup : Option Page × Net × List Aux :=
+        if pgno != 0x1E7 && cv.flags &&& C4_ERASE_PAGE == 0 then s.net.get cv.pgno cv.subno 0xFFFFFFFF
+        else (none, s.net, [])
+      let (hit, n, e1) := lookup
+      let (cv, n, e2, copied) : Page × Net × List Aux × Bool :=
         match hit with
         | some q =>
           let copyHdr := q.function == FN_UNKNOWN || q.function == FN_LOP
           ({ cv with function := q.function, raw := if copyHdr then q.raw.set 0 row0 else q.raw,
                      link := q.link, haveFlof := q.haveFlof, enh := q.enh, ext := q.ext,
                      drcsMode := if q.function == FN_DRCS || q.function == FN_GDRCS then q.drcsMode else cv.drcsMode,
-                     lopPackets := q.lopPackets, x26 := q.x26, x27 := q.x27, x28 := q.x28 }, s, [], copyHdr)
+                     lopPackets := q.lopPackets, x26 := q.x26, x27 := q.x27, x28 := q.x28 }, n, [], copyHdr)
         | none =>
           let cv := { cv with flags := cv.flags ||| C4_ERASE_PAGE }
-          let (cv, s, e, copied) : Page × St × List Event × Bool :=
+          let (cv, n, e, copied) : Page × Net × List Aux × Bool :=
             if cv.pgno == 0x1F0 then
-              let (s, e) := s.setStat cv.pgno (fun ps => { ps with pageType := PT_TOP_PAGE })
-              ({ cv with function := FN_BTT }, s, e, false)
+              let (n, e) := n.setStat cv.pgno (fun ps => { ps with pageType := PT_TOP_PAGE })
+              ({ cv with function := FN_BTT }, n, e, false)
             else if cv.pgno == 0x1E7 then
-              let (s, e) := s.setStat cv.pgno (fun ps => { ps with pageType := PT_DISP_SYSTEM, subcode := 0 })
+              let (n, e) := n.setStat cv.pgno (fun ps => { ps with pageType := PT_DISP_SYSTEM, subcode := 0 })
               ({ cv with function := FN_EACEM, raw := List.replicate 26 blankRow,
-                         enh := List.replicate ENH_SIZE Triplet.ff }, s, e, false)
+                         enh := List.replicate ENH_SIZE Triplet.ff }, n, e, false)
             else if page == 0xFD then
-              let (s, e) := s.setStat cv.pgno (fun ps => { ps with pageType := PT_SYSTEM })
-              ({ cv with function := FN_MIP }, s, e, false)
+              let (n, e) := n.setStat cv.pgno (fun ps => { ps with pageType := PT_SYSTEM })
+              ({ cv with function := FN_MIP }, n, e, false)
             else if page == 0xFE then
-              let (s, e) := s.setStat cv.pgno (fun ps => { ps with pageType := PT_SYSTEM })
-              ({ cv with function := FN_MOT }, s, e, false)
+              let (n, e) := n.setStat cv.pgno (fun ps => { ps with pageType := PT_SYSTEM })
+              ({ cv with function := FN_MOT }, n, e, false)
             else
               ({ cv with function := FN_UNKNOWN, raw := row0 :: List.replicate 25 blankRow,
                          link := List.replicate LINKS Link.ff, enh := List.replicate ENH_SIZE Triplet.ff,
-                         haveFlof := 0 }, s, [], true)
-          ({ cv with lopPackets := 1, x26 := 0, x27 := 0, x28 := 0 }, s, e, copied)
-      let s := s.setPage mag0 cv
-      let (s, e3) :=
+                         haveFlof := 0 }, n, [], true)
+          ({ cv with lopPackets := 1, x26 := 0, x27 := 0, x28 := 0 }, n, e, copied)
+      let (cv, n, e3) : Page × Net × List Aux :=
         if cv.function == FN_UNKNOWN then
-          let fn := functionOfType s (s.getStat cv.pgno).pageType cv.pgno page
-          if fn != FN_UNKNOWN then convertPage s mag0 fn else (s, [])
-        else (s, [])
+          let fn := functionOfType n (n.getStat cv.pgno).pageType cv.pgno page
+          if fn != FN_UNKNOWN then
+            match convertPage n cv fn with
+            | (some cv', n, e) => (cv', n, e)
+            | (none, n, e) => (cv, n, e)
+          else (cv, n, [])
+        else (cv, n, [])
       let rp := s.rp mag0
-      let s := s.setRp mag0 { rp with page := { rp.page with ext := { rp.page.ext with designations := 0 } },
+      let s := { s with net := n }
+      let s := s.setRp mag0 { rp with page := { cv with ext := { cv.ext with designations := 0 } },
                                       lopPackets := 0, numTriplets := 0 }
-      (⟨s, ev ++ e1 ++ e2 ++ e3, true⟩, copied)
+      (⟨s, ev ++ liftAux (e1 ++ e2 ++ e3), true⟩, copied)
 
 /-! ## rows 1..25, X/26 -/
 def processRow (s : St) (mag0 mag8 packet : Nat) (v : View) : Res :=
@@ -1266,28 +1314,28 @@ def processRow (s : St) (mag0 mag8 packet : Nat) (v : View) : Res :=
   let cv := rp.page
   let fn := cv.function
   let bit := 1 <<< packet
-  let done (s : St) (ev : List Event) : Res :=
+  let done (s : St) (ev : List Aux) : Res :=
     let cv := (s.rp mag0).page
-    ⟨s.setPage mag0 { cv with lopPackets := cv.lopPackets ||| bit }, ev, true⟩
+    ⟨s.setPage mag0 { cv with lopPackets := cv.lopPackets ||| bit }, liftAux ev, true⟩
   if fn == FN_DISCARD then ⟨s, [], true⟩
   else if fn == FN_MOT then
-    let (m, ev) := parseMot (s.mag mag8) v packet
-    done (s.setMag mag8 m) ev
+    let (m, ev) := parseMot (s.net.mag mag8) v packet
+    done { s with net := s.net.setMag mag8 m } ev
   else if fn == FN_GPOP || fn == FN_POP then
     let (ok, ev) := parsePop v packet
-    if ok then done s ev else ⟨s, ev, false⟩
+    if ok then done s ev else ⟨s, liftAux ev, false⟩
   else if fn == FN_GDRCS || fn == FN_DRCS then
     done (s.setPage mag0 { cv with raw := cv.raw.set packet v.raw }) []
   else if fn == FN_BTT then
-    let (s, ev) := parseBtt s v packet
-    done s ev
+    let (n, ev) := parseBtt s.net v packet
+    done { s with net := n } ev
   else if fn == FN_AIT then done s (parseAitBounds packet)
   else if fn == FN_MPT then
-    let (s, ev) := parseMpt s v.g8 packet
-    done s ev
+    let (n, ev) := parseMpt s.net v.g8 packet
+    done { s with net := n } ev
   else if fn == FN_MPT_EX then
-    let (s, ev) := parseMptEx s (unhamTopPageLink v) packet
-    done s ev
+    let (n, ev) := parseMptEx s.net (unhamTopPageLink v) packet
+    done { s with net := n } ev
   else if fn == FN_EPG then done s []
   else if fn == FN_LOP then
     ⟨s.setRp mag0 { rp with lopRaw := rp.lopRaw.set packet v.raw, lopPackets := rp.lopPackets ||| bit }, [], true⟩
@@ -1296,6 +1344,20 @@ def processRow (s : St) (mag0 mag8 packet : Nat) (v : View) : Res :=
     else ⟨s, [], false⟩
   else done (s.setPage mag0 { cv with raw := cv.raw.set packet v.raw }) []
 
+/-- the 13 triplets of an accepted X/26 packet: appended at `nt`, stop at the first uncorrectable one -/
+def x26Triplets (v : View) (enh : List Triplet) (nt : Nat) : List Triplet × Nat × List Aux :=
+  let (enh, nt, ev, _) := (List.range 13).foldl (fun (acc : List Triplet × Nat × List Aux × Bool) i =>
+    let (enh, nt, ev, brk) := acc
+    if brk then acc else
+    match v.g24 i with
+    | none => (enh, nt, ev, true)
+    | some t =>
+      if nt < ENH_SIZE then
+        (enh.set nt ⟨t &&& 0x3F, (t >>> 6) &&& 0x1F, (t >>> 11) &&& 0xFF⟩, nt + 1, ev, false)
+      else (enh, nt + 1, ev ++ [Aux.fault "x26:enh"], false))
+    (enh, nt, [], false)
+  (enh, nt, ev)
+
 def process26 (s : St) (mag0 : Nat) (v : View) : Res :=
   let rp := s.rp mag0
   let cv := rp.page
@@ -1303,7 +1365,7 @@ def process26 (s : St) (mag0 : Nat) (v : View) : Res :=
   if fn == FN_DISCARD then ⟨s, [], true⟩
   else if fn == FN_GPOP || fn == FN_POP then
     let (ok, ev) := parsePop v 26
-    ⟨s, ev, ok⟩
+    ⟨s, liftAux ev, ok⟩
   else if fn == FN_GDRCS || fn == FN_DRCS || fn == FN_BTT || fn == FN_AIT || fn == FN_MPT || fn == FN_MPT_EX then
     ⟨desync s, [], true⟩
   else
@@ -1313,18 +1375,10 @@ def process26 (s : St) (mag0 : Nat) (v : View) : Res :=
       if rp.numTriplets ≥ 16 * 13 || rp.numTriplets != (designation * 13 : Nat) then
         ⟨s.setRp mag0 { rp with numTriplets := -1 }, [], false⟩
       else
-        let (enh, nt, ev, _) := (List.range 13).foldl (fun (acc : List Triplet × Nat × List Event × Bool) i =>
-          let (enh, nt, ev, brk) := acc
-          if brk then acc else
-          match v.g24 i with
-          | none => (enh, nt, ev, true)
-          | some t =>
-            if nt < ENH_SIZE then
-              (enh.set nt ⟨t &&& 0x3F, (t >>> 6) &&& 0x1F, (t >>> 11) &&& 0xFF⟩, nt + 1, ev, false)
-            else (enh, nt + 1, ev ++ [Event.fault "x26:enh"], false))
-          (cv.enh, rp.numTriplets.toNat, [], false)
+        let (enh, nt, ev) := x26Triplets v cv.enh (designation * 13)
         ⟨s.setRp mag0 { rp with numTriplets := nt,
-                                page := { cv with enh := enh, x26 := cv.x26 ||| (1 <<< designation) } }, ev, true⟩
+                                page := { cv with enh := enh, x26 := cv.x26 ||| (1 <<< designation) } },
+         liftAux ev, true⟩
 
 /-! ## vbi_decode_teletext -/
 
@@ -1371,7 +1425,7 @@ def process (s : St) (pmag : Nat) (v : View) : Res × Bool :=
   else if packet == 28 && (s.rp mag0).page.function == FN_DISCARD then (⟨s, [], true⟩, false)
   else if packet ≤ 29 then
     let (s, ev, ok) := parse2829 s mag0 mag8 packet v
-    (⟨s, ev, ok⟩, false)
+    (⟨s, liftAux ev, ok⟩, false)
   else if pmag &&& 15 == 0 then
     let (s, ok) := parse830 s v
     (⟨s, [], ok⟩, false)
@@ -1383,15 +1437,18 @@ def patchHdr8 (s : St) (mag0 : Nat) (h8 : List Nat) : St :=
   let cv := (s.rp mag0).page
   s.setPage mag0 { cv with raw := cv.raw.set 0 (h8 ++ (cv.raw.getD 0 zeroRow).drop 8) }
 
-/-- `vbi_decode_teletext (vbi, buffer)` -/
+/-- the 8 Hamming bytes after the address, as stored by the header `memcpy` -/
+def hdr8 (p : Packet) : List Nat := (List.range 8).map fun i => byte p (2 + i)
+
+def finish (r : Res × Bool) (mag0 : Nat) (h8 : List Nat) : Res :=
+  if r.2 then { r.1 with st := patchHdr8 r.1.st mag0 h8 } else r.1
+
+/-- `vbi_decode_teletext (vbi, buffer)`: the packet is read through `a16 p 0` (address),
+    `a8 p 2` (designation, to choose the X/27 layout), `view k p`, and `hdr8 p` -/
 def decodeTeletext (s : St) (p : Packet) : Res :=
   match a16 p 0 with
   | none => ⟨s, [], false⟩
-  | some pmag =>
-    let k := kindOf s pmag (a8 p 2)
-    let (r, copied) := process s pmag (view k p)
-    if copied then { r with st := patchHdr8 r.st (pmag &&& 7) ((List.range 8).map fun i => byte p (2 + i)) }
-    else r
+  | some pmag => finish (process s pmag (view (kindOf s pmag (a8 p 2)) p)) (pmag &&& 7) (hdr8 p)
 
 /-- the part of `vbi_decode` before the lines of a frame with regular timing -/
 def frameTick (s : St) : St × List Event :=
@@ -1412,6 +1469,10 @@ def step (s : St) (p : Packet) : St × List Event :=
   let (s, e0) := frameTick s
   let r := decodeTeletext s p
   (r.st, e0 ++ r.ev)
+
+/-- a whole history of single-line frames -/
+def run (s : St) (ps : List Packet) : St × List Event :=
+  ps.foldl (fun (acc : St × List Event) p => let (s', e) := step acc.1 p; (s', acc.2 ++ e)) (s, [])
 
 /-! ## the character code the Level 1 formatter works on (teletext.c:2560-2565) -/
 def fmtRaw (pg : Page) (row column : Nat) : Nat :=
